@@ -5,6 +5,13 @@
 #include "libeconf.h"
 #include "libeconf_ext.h"
 
+#ifndef DL
+#define DL(x) x     /* marks the library calls made by the dump helpers (the C18 scheduler preempts only inside them) */
+#endif
+#ifndef DUMP_COUNT
+#define DUMP_COUNT(n) (mc_st->libcalls += (n))   /* multi-threaded harnesses define it away: the statistics are not thread-safe */
+#endif
+
 /* one listed key */
 typedef struct { char *g, *k, *v; int has_v; } obs_kv;
 typedef struct {
@@ -47,8 +54,8 @@ static int obs_take(econf_file *kf, obs_cfg *o, sbuf *err)
 {
   memset(o, 0, sizeof *o);
   size_t ng = 0; char **groups = NULL;
-  econf_err rc = econf_getGroups(kf, &ng, &groups);
-  mc_st->libcalls++;
+  econf_err rc; DL(rc = econf_getGroups(kf, &ng, &groups));
+  DUMP_COUNT(1);
   o->rc_groups = (int)rc;
   if (rc != ECONF_SUCCESS && rc != ECONF_NOGROUP) { sb_printf(err, "econf_getGroups returned %d", (int)rc); return -1; }
   if (rc == ECONF_NOGROUP) { ng = 0; groups = NULL; }
@@ -57,24 +64,24 @@ static int obs_take(econf_file *kf, obs_cfg *o, sbuf *err)
   for (size_t gi = 0; gi <= ng; gi++) {
     const char *g = gi == 0 ? NULL : groups[gi - 1];
     size_t nk = 0; char **keys = NULL;
-    rc = econf_getKeys(kf, g, &nk, &keys);
-    mc_st->libcalls++;
+    DL(rc = econf_getKeys(kf, g, &nk, &keys));
+    DUMP_COUNT(1);
     if (rc == ECONF_NOKEY) continue;
-    if (rc != ECONF_SUCCESS) { sb_printf(err, "econf_getKeys(%s) returned %d", g ? g : "NULL", (int)rc); econf_freeArray(groups); return -1; }
+    if (rc != ECONF_SUCCESS) { sb_printf(err, "econf_getKeys(%s) returned %d", g ? g : "NULL", (int)rc); DL(econf_freeArray(groups)); return -1; }
     for (size_t ki = 0; ki < nk; ki++) {
       char *v = NULL;
-      econf_err r2 = econf_getStringValue(kf, g, keys[ki], &v);
-      mc_st->libcalls++;
+      econf_err r2; DL(r2 = econf_getStringValue(kf, g, keys[ki], &v));
+      DUMP_COUNT(1);
       if (r2 != ECONF_SUCCESS) {
         sb_printf(err, "listed key [%s] %s: econf_getStringValue returned %d", g ? g : "", keys[ki], (int)r2);
-        econf_freeArray(keys); econf_freeArray(groups); return -1;
+        DL(econf_freeArray(keys)); DL(econf_freeArray(groups)); return -1;
       }
       obs_add(o, g, keys[ki], v);
       free(v);
     }
-    econf_freeArray(keys);
+    DL(econf_freeArray(keys));
   }
-  econf_freeArray(groups);
+  DL(econf_freeArray(groups));
   return 0;
 }
 
@@ -108,9 +115,9 @@ static void dump_full(sbuf *b, econf_file *kf, const char *work, int with_typed)
   if (!kf) { sb_puts(b, "<NULL file>"); return; }
   if (obs_take(kf, &o, &err) != 0) { sb_printf(b, "<listing error: %s>", err.s); sb_free(&err); obs_free(&o); return; }
   sb_free(&err);
-  char *path = econf_getPath(kf);
+  char *path; DL(path = econf_getPath(kf));
   sb_puts(b, "path="); dump_put_path(b, path, work); free(path);
-  char d = econf_delimiter_tag(kf), c = econf_comment_tag(kf);
+  char d, c; DL(d = econf_delimiter_tag(kf)); DL(c = econf_comment_tag(kf));
   sb_printf(b, " delim=%d comment=%d\n", (int)d, (int)c);
   obs_print(b, &o);
   sb_putc(b, '\n');
@@ -120,8 +127,8 @@ static void dump_full(sbuf *b, econf_file *kf, const char *work, int with_typed)
     for (size_t j = 0; j < i; j++) if (streqn(o.e[j].g, o.e[i].g) && !strcmp(o.e[j].k, o.e[i].k)) dup = 1;
     if (dup) continue;
     econf_ext_value *ev = NULL;
-    econf_err rc = econf_getExtValue(kf, o.e[i].g, o.e[i].k, &ev);
-    mc_st->libcalls++;
+    econf_err rc; DL(rc = econf_getExtValue(kf, o.e[i].g, o.e[i].k, &ev));
+    DUMP_COUNT(1);
     sb_printf(b, " ext[%s]%s rc=%d", o.e[i].g ? o.e[i].g : "", o.e[i].k, (int)rc);
     if (rc == ECONF_SUCCESS && ev) {
       sb_puts(b, " values=");
@@ -130,18 +137,19 @@ static void dump_full(sbuf *b, econf_file *kf, const char *work, int with_typed)
       sb_put_escs(b, ev->comment_before_key);
       sb_puts(b, " after="); sb_put_escs(b, ev->comment_after_value);
       sb_puts(b, " file="); dump_put_path(b, ev->file, work);
-      econf_freeExtValue(ev);
+      DL(econf_freeExtValue(ev));
     }
     if (with_typed && o.e[i].has_v) {
       int32_t i32 = 0; int64_t i64 = 0; uint32_t u32 = 0; uint64_t u64 = 0; float f = 0; double dd = 0; bool bo = false;
-      int r1 = econf_getIntValue(kf, o.e[i].g, o.e[i].k, &i32);
-      int r2 = econf_getInt64Value(kf, o.e[i].g, o.e[i].k, &i64);
-      int r3 = econf_getUIntValue(kf, o.e[i].g, o.e[i].k, &u32);
-      int r4 = econf_getUInt64Value(kf, o.e[i].g, o.e[i].k, &u64);
-      int r5 = econf_getFloatValue(kf, o.e[i].g, o.e[i].k, &f);
-      int r6 = econf_getDoubleValue(kf, o.e[i].g, o.e[i].k, &dd);
-      int r7 = econf_getBoolValue(kf, o.e[i].g, o.e[i].k, &bo);
-      mc_st->libcalls += 7;
+      int r1, r2, r3, r4, r5, r6, r7;
+      DL(r1 = econf_getIntValue(kf, o.e[i].g, o.e[i].k, &i32));
+      DL(r2 = econf_getInt64Value(kf, o.e[i].g, o.e[i].k, &i64));
+      DL(r3 = econf_getUIntValue(kf, o.e[i].g, o.e[i].k, &u32));
+      DL(r4 = econf_getUInt64Value(kf, o.e[i].g, o.e[i].k, &u64));
+      DL(r5 = econf_getFloatValue(kf, o.e[i].g, o.e[i].k, &f));
+      DL(r6 = econf_getDoubleValue(kf, o.e[i].g, o.e[i].k, &dd));
+      DL(r7 = econf_getBoolValue(kf, o.e[i].g, o.e[i].k, &bo));
+      DUMP_COUNT(7);
       sb_printf(b, " typed=%d/%d/%d/%d/%d/%d/%d", r1, r2, r3, r4, r5, r6, r7);
       if (!r1) sb_printf(b, " i32=%d", i32);
       if (!r2) sb_printf(b, " i64=%lld", (long long)i64);
